@@ -1521,10 +1521,18 @@ func parseListLevel(s string) int {
 	for _, c := range s {
 		if c >= '0' && c <= '9' {
 			level = level*10 + int(c-'0')
+			// WordprocessingML has nine list levels (0-8); a larger number in the
+			// file must not drive the indentation loops
+			if level > maxListLevel {
+				level = maxListLevel
+			}
 		}
 	}
 	return level
 }
+
+// maxListLevel is the deepest list level of WordprocessingML (w:ilvl 0-8).
+const maxListLevel = 8
 
 // Lists returns all parsed lists from the document.
 func (r *Reader) Lists() []ParsedList {
